@@ -136,6 +136,61 @@ def check_top_word_nonzero(ctx, F, body, who, exported_by):
     return ctx.ok('R2', role, body.defpath, '%d accepting path(s), each decides `top word != 0` on the word itself' % n, key=key)
 
 
+def check_no_hand_rolled_chunking(ctx, F):
+    """Outside the two coding steps, no function of the ANS coder turns (a copy of) `state` into words by itself: narrowing
+    the state to a Word, or shifting it right by Word::BITS, is the job of the one shared chunker.  A private re-implementation
+    (in an iterator, a conversion, a view) silently fixes its own stop condition and words-per-state assumption."""
+    role = 'the state is turned into words only by the shared chunker'
+    n = 0
+    bad = []
+    for b in F.bodies:
+        if b.promoted is not None or '::tests::' in b.defpath or not b.file.endswith('stream/stack.rs') or b.dk not in ('Fn', 'AssocFn', 'Closure'):
+            continue
+        root = b.defpath.split('::{closure')[0]
+        if root.endswith(('::encode_symbol', '::decode_symbol')):
+            continue
+        try:
+            ev, paths = rules.evaluate(b)
+        except sym.TooManyPaths:
+            continue
+        n += 1
+        is_state = lambda x: isinstance(x, tuple) and x and x[0] in ('in', 'loop') and any(q == ('f', 'state') for q in (x[1] if x[0] == 'in' else x[2]) if isinstance(q, tuple))
+        # closures capture a copy of the state: (*_1).0 style captures are covered by the enclosing function's capture list
+        captured_state = False
+        if b.dk == 'Closure':
+            parent = F.by_def.get(root)
+            if parent is not None:
+                _, pp = rules.evaluate(parent)
+                for r in pp or []:
+                    for x in sym.subterms(r.ret) if r.ret is not None else []:
+                        if isinstance(x, tuple) and x and x[0] == 'agg' and isinstance(x[1], tuple) and x[1][0] == 'closure' and x[1][1] == b.defpath and sym.contains(x, is_state):
+                            captured_state = True
+        for r in paths or []:
+            terms = [t for t, v, _ in r.preds] + ([r.ret] if r.ret is not None else []) + [e['result'] for e in r.events if e['kind'] == 'call'] + [e['value'] for e in r.events if e['kind'] in ('write', 'write_ref')] + list(r.store.values())
+            for t in terms:
+                for x in sym.subterms(t):
+                    if not (isinstance(x, tuple) and x):
+                        continue
+                    src = None
+                    if x[0] == 'cast' and x[1] == 'as_' and x[3] == 'Word':
+                        src = x[2]
+                    if x[0] == 'bin' and x[1] == 'Shr' and x[3] == ('c', '<Word as BitArray>::BITS'):
+                        src = x[2]
+                    if src is None:
+                        continue
+                    if sym.contains(src, is_state) or (captured_state and sym.contains(src, lambda y: isinstance(y, tuple) and y and y[0] in ('in', 'loop'))):
+                        bad.append((b, sym.show(x)[:80]))
+    key = 'R4/no-hand-rolled-chunking/' + ANS
+    if bad:
+        b, what = bad[0]
+        ctx.bad('R4', role, b.defpath, '`%s`: the state is narrowed / shifted word by word outside the shared chunker, so this view of the compressed words has its own stop condition and need not agree with into_compressed() (e.g. it stops at a zero word inside the state, or assumes two words per state)' % what,
+                key=key, loc=rules.loc(b))
+    elif n < 20:
+        ctx.unresolved('R4', role, ANS, 'only %d functions scanned' % n, key=key)
+    else:
+        ctx.ok('R4', role, ANS, '%d functions and closures of src/stream/stack.rs scanned (coding steps excluded): none narrows or word-shifts the state' % n, key=key)
+
+
 def check_export_conversions(ctx, F):
     """Every `From<AnsCoder<..>>` conversion that turns the coder into its words goes through the same export as
     into_compressed(): it reaches the truncating state chunker through the call graph (never a hand-written copy of the
@@ -317,6 +372,7 @@ def run(ctx):
     F = ctx.F
     check_same_source(ctx, F)
     check_export_conversions(ctx, F)
+    check_no_hand_rolled_chunking(ctx, F)
     check_marker_pairing(ctx, F)
     check_refill_threshold(ctx, F)
     _fb, helper = anchors.ans_import_loops(F)
